@@ -31,7 +31,8 @@ def byc(op, k, obl, summaries, **kw):
 def lemma_units(k, kind_k, obl):
     """contracts that the summaries rely on: and/or/not/implies with the whole recursion executed, plus induction steps"""
     us = []
-    for op in ('and', 'or', 'not', 'implies'):
+    obl = tuple(sorted(set(obl) | {'struct', 'panic'}))
+    for op in ('and', 'or', 'not', 'implies', 'const', 'var'):
         us.append(full(op, k, obl))
     for op in ('and', 'or', 'not'):
         us.append(ind(op, kind_k, obl))
@@ -48,7 +49,7 @@ def units_for(pid, quick):
     if pid == 'C02':
         obl = ('struct', 'wf', 'panic')
         us += lemma_units(kf, ki, obl)
-        for op in ('nor', 'nand', 'var', 'const', 'clean'):
+        for op in ('nor', 'nand', 'clean'):
             us.append(full(op, kf, obl))
         for op in ('eq', 'xor', 'ite', 'nor', 'nand'):
             us.append(byc(op, kc, obl, S_BASE))
@@ -66,7 +67,9 @@ def units_for(pid, quick):
         for op in ('count_leq', 'count_lt', 'count_geq', 'count_gt'):
             for a, b in ((0, 2), (1, 1), (2, 1), (2, 2)) + (((3, 2), (1, 3)) if not quick else ()):
                 us.append(ind('cmp_count_compare[%s]/%d,%d' % (op, a, b), 2, obl, ('ite', 'aln', 'amn')))
-                us.append(byc('%s/%d,%d' % (op, a, b), 2, obl, ('cmp_count_compare', 'count_leq_recursive', 'count_geq_recursive')))
+                rec = {'count_leq': 'count_leq_recursive[0]', 'count_lt': 'count_leq_recursive[1]', 'count_geq': 'count_geq_recursive[0]', 'count_gt': 'count_geq_recursive[-1]'}[op]
+                us.append(byc('%s/%d,%d' % (rec, a, b), 2, obl, ('cmp_count_compare',)))
+                us.append(byc('%s/%d,%d' % (op, a, b), 2, obl, ('count_leq_recursive', 'count_geq_recursive')))
         for a, b in ((0, 0), (1, 2), (2, 2)):
             us.append(byc('count_eq/%d,%d' % (a, b), 2, obl, ('count_leq', 'count_geq', 'and')))
         us.append(byc('model', kf, ('wf', 'panic'), S_CONN))
@@ -105,7 +108,9 @@ def units_for(pid, quick):
         for op in ('count_leq', 'count_lt', 'count_geq', 'count_gt'):
             for a, b in pairs:
                 us.append(ind('cmp_count_compare[%s]/%d,%d' % (op, a, b), 2, obl, ('ite', 'aln', 'amn')))
-                us.append(byc('%s/%d,%d' % (op, a, b), 2, obl, ('cmp_count_compare', 'count_leq_recursive', 'count_geq_recursive')))
+                rec = {'count_leq': 'count_leq_recursive[0]', 'count_lt': 'count_leq_recursive[1]', 'count_geq': 'count_geq_recursive[0]', 'count_gt': 'count_geq_recursive[-1]'}[op]
+                us.append(byc('%s/%d,%d' % (rec, a, b), 2, obl, ('cmp_count_compare',)))
+                us.append(byc('%s/%d,%d' % (op, a, b), 2, obl, ('count_leq_recursive', 'count_geq_recursive')))
         for a, b in pairs:
             us.append(byc('count_eq/%d,%d' % (a, b), 2, obl, ('count_leq', 'count_geq', 'and')))
         st = [('aln comparator <= -> <', 'aln/2', 1, dict(obligations=('sem',), witness=False, summaries=('cmp_count',),
@@ -114,7 +119,6 @@ def units_for(pid, quick):
                                                              mutate=('count_lt', 'const 1_i64', 'const 0_i64')))]
     elif pid == 'C07':
         us += lemma_units(kf, ki, ('struct', 'panic'))
-        us.append(byc('var', kc, ('struct', 'panic'), ()))
         us.append(byc('model', kf, ('wf', 'panic'), S_CONN))
         us.append(byc('model', kc, ('wf', 'panic'), S_CONN))
         us.append(U('model k=2 full recursion', 'model', 2, obligations=('wf', 'panic'), timeout=to))
